@@ -262,9 +262,10 @@ def _build_string_literal(d):
     return (lambda: P._parse_string_literal(d["literal"])), {"literal": d["literal"]}
 
 
-def _visitor(name, gen_text):
+def _visitor(name, gen_text, first=()):
     def gen(rng, i):
-        return {"text": gen_text(rng)}
+        # the listed texts first (index-driven), then random ones
+        return {"text": first[i] if i < len(first) else gen_text(rng)}
 
     def build(d):
         from pydsdl import _parser as P
@@ -393,10 +394,12 @@ def install(reg):
             continue
         elif q.startswith(E.EX) and q.split(".")[-2] in _CLASS_KIND:
             add_method(q)
-    NATIVE.add(E.PARSER + "_parse_string_literal", _gen_string_literal, _build_string_literal)
-    _visitor("visit_literal_integer", _gen_int_text)
-    _visitor("visit_literal_integer_decimal", _gen_int_text)
-    _visitor("visit_literal_real", _gen_real_text)
+    NATIVE.add(E.PARSER + "_parse_string_literal",
+               lambda rng, i: {"literal": E._STRING_TEXTS[i]} if i < len(E._STRING_TEXTS) else _gen_string_literal(rng, i),
+               _build_string_literal)
+    _visitor("visit_literal_integer", _gen_int_text, E._INT_TEXTS)
+    _visitor("visit_literal_integer_decimal", _gen_int_text, E._DEC_TEXTS)
+    _visitor("visit_literal_real", _gen_real_text, E._REAL_TEXTS)
     _visitor("visit_literal_string_single_quoted", lambda rng: _gen_string_literal(rng, 0)["literal"])
     _visitor("visit_literal_string_double_quoted", lambda rng: _gen_string_literal(rng, 0)["literal"])
     NATIVE.add(E.PARSER + "_unwrap_array_capacity", _gen_capacity, _build_capacity)
